@@ -74,6 +74,7 @@ func (x *Exec) bigFromTC(w []*Term) TupleV {
 }
 
 func registerMoreIntrinsics() {
+	registerSnapshotIntrinsics()
 	intrinsics["math/big.NewInt"] = func(x *Exec, st *State, fr *Frame, fn *ssa.Function, a []Value) (Value, int) {
 		v := a[0].(*Term)
 		p := st.alloc(x.zero(typeOfPtrElem(fn.Signature.Results().At(0).Type())))
